@@ -303,6 +303,8 @@ type harness struct {
 	dir     string
 	nfile   int
 	devnull *os.File
+	defSnap *config.AppConfig // first answer of GetDefaultAppConfig in this process
+	nStart  int
 }
 
 type assignment struct {
@@ -410,17 +412,91 @@ func (h *harness) startup(fileYAML map[string]any, rawYAML string, env map[strin
 	}
 	cfg, _, err := config.Load(defaultCfg)
 	res.cfg, res.err = cfg, err
+	h.nStart++
+	if h.nStart%16 == 0 {
+		h.defaultsIntact(fmt.Sprintf("defaults-after-resolution/%d", h.nStart))
+	}
 	if form >= 0 {
 		h.r.Count(fmt.Sprintf("flag_form_%d_used", form%3), 1)
 	}
 	return res
 }
 
-// defaults is the documented default configuration (config/defaults.go) for appVersion.
+// defaults is the documented default configuration (config/defaults.go) for appVersion: a private deep copy of what
+// GetDefaultAppConfig answered the first time it was asked in this process, before any configuration was resolved.
 func (h *harness) defaults() *config.AppConfig {
+	if h.defSnap == nil {
+		nop := zerolog.Nop()
+		_ = config.SetDefaults(appVersion, &nop) // sets the version the default user agent refers to
+		h.defSnap = deepCopy(reflect.ValueOf(config.GetDefaultAppConfig())).Interface().(*config.AppConfig)
+	}
+	return deepCopy(reflect.ValueOf(h.defSnap)).Interface().(*config.AppConfig)
+}
+
+// defaultsIntact compares what GetDefaultAppConfig answers now with the first answer: resolving one configuration must not
+// change the defaults the next resolution starts from.
+func (h *harness) defaultsIntact(caseID string) bool {
+	if h.defSnap == nil || h.ls == nil {
+		return true
+	}
 	nop := zerolog.Nop()
-	_ = config.SetDefaults(appVersion, &nop) // sets the version the default user agent refers to
-	return config.GetDefaultAppConfig()
+	_ = config.SetDefaults(appVersion, &nop)
+	now, first := flatten(config.GetDefaultAppConfig(), h.ls), flatten(h.defSnap, h.ls)
+	for _, l := range h.ls {
+		if now[l.path] != first[l.path] {
+			h.r.Violate("defaults-changed-by-an-earlier-resolution|key="+l.path, fmt.Sprintf("the default of %s is now %s; it was %s before the first configuration was resolved in this process", l.path, now[l.path], first[l.path]), caseID, map[string]any{"key": l.path, "now": now[l.path], "first": first[l.path]})
+			return false
+		}
+	}
+	h.r.Count("defaults_compared_with_first_answer", 1)
+	return true
+}
+
+func deepCopy(v reflect.Value) reflect.Value {
+	switch v.Kind() {
+	case reflect.Ptr:
+		if v.IsNil() {
+			return v
+		}
+		n := reflect.New(v.Type().Elem())
+		n.Elem().Set(deepCopy(v.Elem()))
+		return n
+	case reflect.Struct:
+		n := reflect.New(v.Type()).Elem()
+		n.Set(v) // unexported fields by value
+		for i := 0; i < v.NumField(); i++ {
+			if n.Field(i).CanSet() {
+				n.Field(i).Set(deepCopy(v.Field(i)))
+			}
+		}
+		return n
+	case reflect.Slice:
+		if v.IsNil() {
+			return v
+		}
+		n := reflect.MakeSlice(v.Type(), v.Len(), v.Len())
+		for i := 0; i < v.Len(); i++ {
+			n.Index(i).Set(deepCopy(v.Index(i)))
+		}
+		return n
+	case reflect.Map:
+		if v.IsNil() {
+			return v
+		}
+		n := reflect.MakeMapWithSize(v.Type(), v.Len())
+		for _, k := range v.MapKeys() {
+			n.SetMapIndex(k, deepCopy(v.MapIndex(k)))
+		}
+		return n
+	case reflect.Interface:
+		if v.IsNil() {
+			return v
+		}
+		n := reflect.New(v.Type()).Elem()
+		n.Set(deepCopy(v.Elem()))
+		return n
+	}
+	return v
 }
 
 // runAssign executes one case with the given per-key sources and compares the whole struct.
